@@ -1,4 +1,5 @@
 import Chain33Model.Proofs.C15Deficit
+import Chain33Model.Proofs.C15Norm
 /-!
 C15 — Assets are conserved and balances never go negative.  Property theorems only.
 
@@ -131,6 +132,22 @@ theorem case_insensitive_write (c : Cfg σ κ) (s : State σ κ) (hw : WF c s) (
   simpa [mb, h, step, mint] using this
 
 end
+
+/-! ## The concrete key normalisation of the eth address driver satisfies the laws -/
+
+/-- `normEth` (the model of `address.FormatAddrKey`) is idempotent. -/
+theorem normEth_idempotent (l : List Char) : normEthL (normEthL l) = normEthL l := normEthL_idem l
+
+/-- Two spellings of a hex address (optional `0x`/`0X`, 40 hex digits) that differ only in letter
+case have the same storage key; with `case_insensitive` they are one account. -/
+theorem normEth_case_variants (a b : String) (ha : isHexAddr a.toList = true)
+    (h : a.toList.map Char.toLower = b.toList.map Char.toLower) : normEth a = normEth b := by
+  unfold normEth; rw [normEthL_case _ _ ha h]
+
+example : isHexAddr "0xAbCdef0123456789abcdef0123456789abcdef01".toList = true ∧
+    normEth "0xAbCdef0123456789abcdef0123456789abcdef01" = normEth "0XABCDEF0123456789ABCDEF0123456789ABCDEF01" ∧
+    normEth "abcdef0123456789abcdef0123456789abcdef01" ≠ normEth "0xabcdef0123456789abcdef0123456789abcdef01" ∧
+    normEth "14KEKbYtKKQm4wMthSK9J4La4nAiidGozt" = "14KEKbYtKKQm4wMthSK9J4La4nAiidGozt" := by decide
 
 /-! ## Refuting witnesses (spellings are numbers; `2k` and `2k+1` spell account `k`) -/
 
